@@ -18,14 +18,32 @@ import (
 // from the element of this iteration (elemWhy returns "" when it is).
 func totalLoop(x *Ctx, rule, key string, f *ssa.Function, desc string, emit func(in ssa.Instruction) (ssa.Value, bool), elemWhy func(v ssa.Value) string) {
 	var fns []*ssa.Function
-	var add func(g *ssa.Function)
-	add = func(g *ssa.Function) {
+	var add func(g *ssa.Function, depth int)
+	add = func(g *ssa.Function, depth int) {
+		for _, h := range fns {
+			if h == g {
+				return
+			}
+		}
 		fns = append(fns, g)
 		for _, a := range g.AnonFuncs {
-			add(a)
+			add(a, depth)
+		}
+		if depth >= 2 {
+			return
+		}
+		// new helpers of the module the code was moved into
+		for _, b := range g.Blocks {
+			for _, in := range b.Instrs {
+				if c, ok := in.(ssa.CallInstruction); ok {
+					if h := c.Common().StaticCallee(); h != nil && len(h.Blocks) > 0 && x.P.IsNewHelper(h) {
+						add(h, depth+1)
+					}
+				}
+			}
 		}
 	}
-	add(f)
+	add(f, 0)
 	type site struct {
 		in  ssa.Instruction
 		val ssa.Value
@@ -149,27 +167,7 @@ func runTotalLoops(x *Ctx, which string) {
 	case "C11":
 		if f := x.fn("C11.R1", "pkg/policy.assemble"); f != nil {
 			totalLoop(x, "C11.R1", "total:assemble", f, "assemble keeps one statement per constructor: the loop appends the statement built by the constructor of the iteration on every iteration that does not fail",
-				func(in ssa.Instruction) (ssa.Value, bool) {
-					c, ok := in.(*ssa.Call)
-					if !ok {
-						return nil, false
-					}
-					if b, isB := c.Call.Value.(*ssa.Builtin); !isB || b.Name() != "append" || len(c.Call.Args) != 2 || !strings.HasSuffix(c.Type().String(), "policy.Statement") {
-						return nil, false
-					}
-					if al, lit := sliceLitOf(c.Call.Args[1]); lit {
-						for _, r := range *al.Referrers() {
-							if ia, ok := r.(*ssa.IndexAddr); ok {
-								for _, rr := range *ia.Referrers() {
-									if st, ok := rr.(*ssa.Store); ok && st.Addr == ssa.Value(ia) {
-										return st.Val, true
-									}
-								}
-							}
-						}
-					}
-					return c.Call.Args[1], true
-				},
+				statementEmit,
 				func(v ssa.Value) string {
 					if extractOfCall(v, 0, func(c *ssa.Call) bool { return c.Call.StaticCallee() == nil && !c.Call.IsInvoke() }) {
 						return ""
@@ -180,30 +178,7 @@ func runTotalLoops(x *Ctx, which string) {
 	case "C14":
 		if f := x.fn("C14.R3", "pkg/policy.statementsFromIPLD"); f != nil {
 			totalLoop(x, "C14.R3", "total:statementsFromIPLD", f, "a decoded statement list holds one statement per element: every iteration that does not fail stores the statement decoded from the element of the iteration",
-				func(in ssa.Instruction) (ssa.Value, bool) {
-					switch t := in.(type) {
-					case *ssa.Store:
-						if ia, ok := t.Addr.(*ssa.IndexAddr); ok && strings.HasSuffix(ia.X.Type().String(), "policy.Statement") {
-							return t.Val, true
-						}
-					case *ssa.Call:
-						if b, isB := t.Call.Value.(*ssa.Builtin); isB && b.Name() == "append" && len(t.Call.Args) == 2 && strings.HasSuffix(t.Type().String(), "policy.Statement") {
-							if al, lit := sliceLitOf(t.Call.Args[1]); lit {
-								for _, r := range *al.Referrers() {
-									if ia, ok := r.(*ssa.IndexAddr); ok {
-										for _, rr := range *ia.Referrers() {
-											if st, ok := rr.(*ssa.Store); ok && st.Addr == ssa.Value(ia) {
-												return st.Val, true
-											}
-										}
-									}
-								}
-							}
-							return t.Call.Args[1], true
-						}
-					}
-					return nil, false
-				},
+				statementEmit,
 				func(v ssa.Value) string {
 					if extractOfCall(v, 0, func(c *ssa.Call) bool {
 						h := c.Call.StaticCallee()
@@ -257,4 +232,31 @@ func runTotalLoops(x *Ctx, which string) {
 				})
 		}
 	}
+}
+
+// statementEmit recognises the instruction that puts a statement into a list of statements: a store into an
+// element (res[i] = st) or an append of one element.
+var statementEmit = func(in ssa.Instruction) (ssa.Value, bool) {
+	switch t := in.(type) {
+	case *ssa.Store:
+		if ia, ok := t.Addr.(*ssa.IndexAddr); ok && strings.HasPrefix(ia.X.Type().String(), "[]") && strings.HasSuffix(ia.X.Type().String(), "policy.Statement") {
+			return t.Val, true
+		}
+	case *ssa.Call:
+		if b, isB := t.Call.Value.(*ssa.Builtin); isB && b.Name() == "append" && len(t.Call.Args) == 2 && strings.HasSuffix(t.Type().String(), "policy.Statement") {
+			if al, lit := sliceLitOf(t.Call.Args[1]); lit {
+				for _, r := range *al.Referrers() {
+					if ia, ok := r.(*ssa.IndexAddr); ok {
+						for _, rr := range *ia.Referrers() {
+							if st, ok := rr.(*ssa.Store); ok && st.Addr == ssa.Value(ia) {
+								return st.Val, true
+							}
+						}
+					}
+				}
+			}
+			return t.Call.Args[1], true
+		}
+	}
+	return nil, false
 }
